@@ -1,12 +1,13 @@
 #!/bin/sh
 # usage: tools/multiseed.sh <tier> <seed>... ; runs every check of the given tier for each seed and prints one line per run.
+# CHECKS="C08 C06" restricts the run to those checks.
 # With VP_RUN_REPO set (vp run --with-repo) the module replacement is pointed at that snapshot of /repo.
 tier=$1; shift
 if [ -n "$VP_RUN_REPO" ]; then
   GOFLAGS=-mod=mod go mod edit -replace github.com/elastic/go-txfile=$VP_RUN_REPO
 fi
 for s in "$@"; do
-  for c in C01 C02 C03 C04 C05 C06 C07 C08 C09 C10 C11 C12 C13 C14 C15 C16 C17 C18; do
+  for c in ${CHECKS:-C01 C02 C03 C04 C05 C06 C07 C08 C09 C10 C11 C12 C13 C14 C15 C16 C17 C18}; do
     t0=$(date +%s)
     VERIF_SEED=$s ./check check $c --tier $tier > out.$c.$s.log 2>&1
     rc=$?
